@@ -37,7 +37,8 @@ def V(key, msg):
 # units, isometries
 # ------------------------------------------------------------------------------------------------
 def trow(k, seed):
-    return np.concatenate([[1.0], RADII[k % len(RADII)] * lattice.generic_dir(N_DIM, k, seed)])
+    """Interior point of H^2 as a projective row; representatives of both signs and several scales."""
+    return lattice.LAMBDAS[k % 4] * np.concatenate([[1.0], RADII[k % len(RADII)] * lattice.generic_dir(N_DIM, k, seed)])
 
 
 def prow(k):
@@ -50,6 +51,16 @@ def unit_data(cls, k, seed):
         return np.stack([trow(3 * k + i, seed) for i in range(3)])
     if cls == "H.Segment":
         return np.stack([trow(2 * k, seed), trow(2 * k + 1, seed)])
+    if cls == "H.Segment/ideal":
+        # first endpoint ideal (generic angle: lightlike only up to rounding), second interior or ideal
+        th = 0.3 + 0.77 * k
+        first = lattice.LAMBDAS[k % 4] * np.array([1.0, math.cos(th), math.sin(th)])
+        if k % 3 == 2:
+            th2 = th + 1.9
+            second = np.array([1.0, math.cos(th2), math.sin(th2)])
+        else:
+            second = trow(2 * k + 1, seed)
+        return np.stack([first, second])
     if cls == "H.TangentVector":
         return np.stack([trow(k, seed), np.concatenate([[0.2], lattice.generic_dir(N_DIM, 300 + k, seed)]) * (1.0 + 0.25 * (k % 3))])
     if cls == "P.Polygon":
@@ -66,7 +77,7 @@ def fresh_data(cls, shape, start, seed):
 
 def klass(cls):
     from geometry_tools import projective as P, hyperbolic as H
-    return getattr(H if cls.startswith("H.") else P, cls.split(".")[1])
+    return getattr(H if cls.startswith("H.") else P, cls.split(".")[1].split("/")[0])
 
 
 def make(cls, data):
@@ -104,7 +115,7 @@ def make_T(cls, which):
 def oracle_aux(cls, data):
     if cls in ("H.Polygon", "P.Polygon"):
         return edges_of(data)
-    if cls == "H.Segment":
+    if cls.startswith("H.Segment"):
         return ideal_endpoints(data)
     return tangent_aux(data)
 
@@ -112,7 +123,7 @@ def oracle_aux(cls, data):
 def aux_err(cls, got, exp):
     if got is None:
         return float("inf")
-    if cls == "H.Segment":
+    if cls.startswith("H.Segment"):
         return pair_err_unordered(got, exp)        # the order of the two ideal endpoints is not part of the property
     return rows_err(got, exp)
 
@@ -190,17 +201,24 @@ def run_queries(cls, obj, model, seed, nxt, root_array, cx=False):
     MODELS = ["projective", "klein", "poincare", "halfspace", "hyperboloid"]
     if cls == "H.Polygon":
         other = w.obj("argument", H.Polygon(other_arr))
+        pts_arr = w.arr("argument-points-array", np.array(other_arr))
+        arg_pts = w.obj("argument-points", H.Point(pts_arr))         # the very object handed to the queries
         calls += [("coords-%s" % m, (lambda m=m: obj.coords(m))) for m in MODELS]
         calls += [("get_vertices.coords-%s" % m, (lambda m=m: obj.get_vertices().coords(m))) for m in MODELS]
         calls += [("get_edges", lambda: obj.get_edges()), ("get_vertices", lambda: obj.get_vertices()),
                   ("get_edges.ideal_endpoint_coords", lambda: [obj.get_edges().ideal_endpoint_coords(m) for m in ("klein", "poincare", "halfspace")]),
                   ("get_edges.circle_parameters", lambda: None if cx else [obj.get_edges().circle_parameters(model=m) for m in ("poincare", "halfspace")]),
-                  ("distance", lambda: obj.get_vertices().distance(other.get_vertices())),
+                  ("distance", lambda: obj.get_vertices().distance(arg_pts)),
+                  ("distance-from-argument", lambda: arg_pts.distance(obj.get_vertices())),
                   ("origin_to", lambda: obj.get_vertices().origin_to()),
-                  ("unit_tangent_towards", lambda: obj.get_vertices().unit_tangent_towards(other.get_vertices())),
+                  ("origin_to-argument", lambda: arg_pts.origin_to()),
+                  ("unit_tangent_towards", lambda: obj.get_vertices().unit_tangent_towards(arg_pts)),
+                  ("unit_tangent_towards-from-argument", lambda: arg_pts.unit_tangent_towards(obj.get_vertices())),
                   ("in_standard_chart", lambda: obj.in_standard_chart())]
     elif cls == "H.Segment":
         other = w.obj("argument", H.Segment(other_arr))
+        pts_arr = w.arr("argument-points-array", np.array(other_arr[..., 1, :]))
+        arg_pts = w.obj("argument-points", H.Point(pts_arr))
         calls += [("coords-%s" % m, (lambda m=m: obj.coords(m))) for m in MODELS]
         calls += [("endpoint_coords-%s" % m, (lambda m=m: obj.endpoint_coords(m))) for m in MODELS]
         calls += [("ideal_endpoint_coords-%s" % m, (lambda m=m: obj.ideal_endpoint_coords(m))) for m in ("klein", "poincare", "halfspace", "projective")]
@@ -210,9 +228,12 @@ def run_queries(cls, obj, model, seed, nxt, root_array, cx=False):
         calls += [("geodesic", lambda: obj.geodesic()), ("get_endpoints", lambda: obj.get_endpoints()),
                   ("get_end_pair", lambda: obj.get_end_pair()),
                   ("distance", lambda: obj.get_end_pair(as_points=True)[0].distance(obj.get_end_pair(as_points=True)[1])),
-                  ("distance-to-argument", lambda: obj.get_endpoints().distance(other.get_endpoints())),
+                  ("distance-to-argument", lambda: obj.get_end_pair(as_points=True)[0].distance(arg_pts)),
+                  ("distance-from-argument", lambda: arg_pts.distance(obj.get_end_pair(as_points=True)[1])),
                   ("origin_to", lambda: obj.get_end_pair(as_points=True)[0].origin_to()),
-                  ("unit_tangent_towards", lambda: obj.get_end_pair(as_points=True)[0].unit_tangent_towards(other.get_end_pair(as_points=True)[1]))]
+                  ("origin_to-argument", lambda: arg_pts.origin_to()),
+                  ("unit_tangent_towards", lambda: obj.get_end_pair(as_points=True)[0].unit_tangent_towards(arg_pts)),
+                  ("unit_tangent_towards-from-argument", lambda: arg_pts.unit_tangent_towards(obj.get_end_pair(as_points=True)[0]))]
     elif cls == "H.TangentVector":
         other = w.obj("argument", H.TangentVector(other_arr))
         calls += [("coords-projective", lambda: obj.coords("projective")),
@@ -282,6 +303,13 @@ def case_hist(hist):
             for idx, i, j in S.index_map("elementwise", mshape, (2,)):
                 new[idx] = model[i] @ R[j]
             obj, model = T @ obj, new
+        elif name == "apply-pairwise":
+            # composite transformation (2,) applied pairwise: object axes first, then the transformation's
+            T, R = make_T(cls, "pair")
+            new = np.zeros(tuple(mshape) + (2,) + ush, dtype=model.dtype)
+            for idx, i, j in S.index_map("pairwise", mshape, (2,)):
+                new[idx] = model[i] @ R[j]
+            obj, model = T.apply(obj, "pairwise"), new
         elif name == "reshape":
             obj, model = obj.reshape(tuple(op[1])), model.reshape(tuple(op[1]) + ush)
         elif name == "flatten":
@@ -343,6 +371,8 @@ def case_hist(hist):
         nextops += [["apply", 0], ["apply", 1]]
         if S.broadcast_shape(mshape, (2,)) is not None and N <= 8:
             nextops.append(["apply-composite"])
+        if N <= 4:
+            nextops.append(["apply-pairwise"])
         rs = [s for s in [(N,), (1, N), (N, 1)] + ([(2, N // 2)] if N % 2 == 0 and N > 2 else []) if tuple(s) != tuple(mshape)]
         seen = []
         for s in rs:
@@ -358,7 +388,8 @@ def case_hist(hist):
             nextops += [["stack"], ["combine"]]
         if not cx:
             nextops.append(["astype"])
-        nextops.append(["queries"])
+        if "/ideal" not in cls:
+            nextops.append(["queries"])          # queries on ideal endpoints (hyperboloid coordinates of null vectors) are C01/C14's
     raw = np.round(np.asarray(obj.proj_data).astype(complex).flatten(), 5) + (0.0 + 0.0j) if not v else None
     key = repr((cls, tuple(mshape), cx, canon_rows(model, 5), None if raw is None else hashlib.sha1(raw.tobytes()).hexdigest()[:12]))
     return {"v": v, "t": t, "o": repr((cls, tuple(mshape), last, cx)), "nt": len(ops) > 0, "key": key, "ops": nextops}
@@ -379,7 +410,9 @@ def run(ctx):
     ctx.assume("the library's ComplexWarning casts on complex dtype are ignored (queries on complex128 objects are executed, their values not judged)")
     ctx.tolerances["projective rows"] = "sine of the angle between rows <= 1e-8 (coordinates <= ~10, measured errors <= 1e-13; stale data differs by >= 1e-2)"
     roots = [[{"cls": c, "shape": s, "seed": ctx.seed}] for c in CLASSES for s in ([], [2], [2, 2])]
+    roots += [[{"cls": "H.Segment/ideal", "shape": s, "seed": ctx.seed}] for s in ([], [3])]
     ctx.bfs("object-histories", "checks.c11:case_hist", roots, depth=3 if q else 4, chunk=24,
             domains={"classes": CLASSES, "initial shapes": [[], [2], [2, 2]],
-                     "ops": "copy, apply x2, apply-composite (2,), reshape to (N,),(1,N),(N,1),(2,N/2), flatten_to_unit, [0],[last], "
+                     "extra class": "H.Segment/ideal = segments whose first endpoint is ideal (generic angle) and second interior or ideal",
+                     "ops": "copy, apply x2, apply-composite (2,), apply-pairwise (2,), reshape to (N,),(1,N),(N,1),(2,N/2), flatten_to_unit, [0],[last], "
                             "[0]=unit,[last]=unit, stack, combine, astype(complex128), queries (every read-only query, checked one by one)"})
